@@ -5,7 +5,8 @@
    (old-format headers, partial lengths, non-canonical MPIs); the model covers canonical new-format encodings. *)
 From Coq Require Import ZArith List Bool.
 Import ListNotations.
-Require Import PV.Lib.Bytes PV.Model.Wire PV.Model.Fmt PV.Model.Packets PV.Proofs.Fmt_lemmas PV.Proofs.Packets_lemmas.
+Require Import PV.Lib.Bytes PV.Model.Wire PV.Model.Fmt PV.Model.Packets PV.Model.HashData PV.Model.SubArea PV.Proofs.Fmt_lemmas PV.Proofs.Packets_lemmas
+  PV.Proofs.SubArea_lemmas.
 Open Scope Z_scope.
 
 Theorem C08_dec_enc : forall fuel f m v b r,
@@ -33,3 +34,27 @@ Example C08_literal_example :
   exists b, enc f_literal (VP (VB [203]) (VP (VZ 98) (VP (VB [97; 46; 116; 120; 116]) (VP (VZ 1) (VB [1; 2]))))) = Some b
   /\ In f_literal all_formats.
 Proof. eexists. split; [vm_compute; reflexivity|]. unfold all_formats. cbn. tauto. Qed.
+
+(* ---------- foreign signature packets: the two subpacket areas (Model/SubArea.v, after repairs 54a6db5 and 88a5e9e) ---------- *)
+(* whatever encoding another producer chose inside the areas (length forms, flag widths, text charset) and however the parsed
+   objects would serialise, an accepted packet's areas are re-exported octet for octet with the following data untouched ... *)
+Theorem C08_subpacket_areas_verbatim : forall reser p st rest, sa_parse p = Some (st, rest) -> sa_emit reser st ++ rest = p.
+Proof. exact emit_parse_verbatim. Qed.
+Print Assumptions C08_subpacket_areas_verbatim.
+
+(* ... so the export is a fixed point of a further parse / serialise pass *)
+Theorem C08_subpacket_areas_fixed_point : forall reser p st rest st' rest',
+  sa_parse p = Some (st, rest) -> sa_parse (sa_emit reser st ++ rest) = Some (st', rest') ->
+  sa_emit reser st' ++ rest' = sa_emit reser st ++ rest.
+Proof. exact emit_parse_fixed_point. Qed.
+Print Assumptions C08_subpacket_areas_fixed_point.
+
+(* the behaviour before the repairs (always re-serialise) is refuted by a closed witness *)
+Theorem C08_reserialising_refuted : exists (reser : list sub3 -> bytes) p st rest,
+  sa_parse p = Some (st, rest) /\ sa_emit_old reser st ++ rest <> p.
+Proof. exact old_emit_refuted. Qed.
+Print Assumptions C08_reserialising_refuted.
+
+Example C08_nonminimal_area_accepted : exists st rest,
+  sa_parse [0; 3; 2; 4; 2;  0; 7; 255; 0; 0; 0; 2; 27; 3;  9; 9] = Some (st, rest) /\ rest = [9; 9] /\ sa_u st = [(27, false, [3])].
+Proof. exact parse_accepts_nonminimal. Qed.
